@@ -21,11 +21,14 @@ Restated more precisely than DESIGN §6 planned:
   code, `chunked_correct` is the full theorem of the repaired code.
 -/
 import Cascette.Proofs.Bspatch
+import Cascette.Proofs.Zbsdiff
 namespace Cascette.Props.C16
 open Cascette
 open Cascette.Spec.Bspatch
 open Cascette.Model.Bspatch
 open Cascette.Proofs.Bspatch
+open Cascette.Model.Zbsdiff
+open Cascette.Proofs.Zbsdiff
 
 /-! ### the patchers -/
 
@@ -339,5 +342,312 @@ theorem pinned_chunked_partial (maxBlk : Nat) (old new : Bytes) (buf : Nat) (p :
   apply both_ok old new p buf h4
   rw [h1, h2, h3]
   exact chunkedLoop_correct old maxBlk 256 (by omega) new.length 0 old new (Nat.le_refl _) rfl
+
+/-! ### from the WHOLE patch bytes: 32-byte header + zlib framing, zlib a parameter
+
+`buildBytes z r` = a builder followed by `build_patch_internal` (to_compressed, 2 × compress_zlib,
+header from the compressed lengths, validate, header ‖ control ‖ diff ‖ extra);
+`applyPatchBytes z buf old p` = `apply_patch_memory` (`buf = none`) or the documented streaming use
+`parse_from_patch` + `ZbsdiffPatcher::new(old, header.output_size).with_buffer_size(b)
+.apply_patch_from_data` (`buf = some b`). `z : Zlib` is ANY pair of functions with
+`decompress (compress b) = some b`. -/
+
+/-- a lawful, non-trivial stand-in for zlib used by the non-vacuity examples: one marker byte. -/
+def storeZ : Zlib := ⟨fun b => 0x78 :: b, fun l => match l with | [] => none | x :: b => if x = 0x78 then some b else none⟩
+
+theorem storeZ_lawful : storeZ.Lawful := fun _ => rfl
+
+/-- `ZbsdiffHeader`: `read_options (write_options h ‖ anything) = h` for every header of `i64` fields
+(signature, three little-endian two's-complement sizes at offsets 8 / 16 / 24). -/
+theorem header_roundtrip (h : Header) (rest : Bytes) (hr : Header.InRange h) :
+    readHeader (h.write ++ rest) = .ok h := readHeader_write h rest hr
+
+example : Header.InRange ⟨17, 11, 11⟩ ∧
+    (readHeader ((⟨17, 11, 11⟩ : Header).write ++ [1, 2, 3])).toOption = some ⟨17, 11, 11⟩ :=
+  ⟨by unfold Header.InRange; decide, by decide +kernel⟩
+
+/-- `ZbsDiff::build (ZbsDiff::parse p) = p`: the container split keeps every byte of ANY input it
+accepts (header fields are re-written verbatim, the three slices are contiguous and exhaustive). -/
+theorem container_roundtrip (p : Bytes) (h : Header) (c d e : Bytes) (hs : splitPatch p = .ok (h, c, d, e)) :
+    containerBuild h c d e = p := container_of_split p h c d e hs
+
+/-- `ZbsDiff::parse (ZbsDiff::build x) = x` when the header is valid and states the block lengths:
+the slices come back at exactly the offsets 32, 32 + control_size, 32 + control_size + diff_size. -/
+theorem container_parse_build (h : Header) (c d e : Bytes) (hv : h.valid = true)
+    (hc : h.ctl = c.length) (hd : h.diff = d.length) :
+    splitPatch (containerBuild h c d e) = .ok (h, c, d, e) := splitPatch_container h c d e hv hc hd
+
+example : (⟨2, 1, 5⟩ : Header).valid = true ∧
+    (splitPatch (containerBuild ⟨2, 1, 5⟩ [7, 8] [9] [10, 11])).toOption = some (⟨2, 1, 5⟩, [7, 8], [9], [10, 11]) :=
+  ⟨by decide, by decide +kernel⟩
+
+/-- the decode prefix of both apply entry points recovers from the bytes `build_patch_internal`
+returns exactly the control entries, diff block, extra block and size they were made of. -/
+theorem patch_bytes_blocks (z : Zlib) (lz : z.Lawful) (p : Patch) (bytes : Bytes) (hne : p.ctl ≠ [])
+    (hv : ∀ c ∈ p.ctl, ValidCtl c) (h : serialize z p = .ok bytes) :
+    decodePatch z bytes = .ok ⟨p.ctl, p.diff, p.extra, p.outSize⟩ := decode_serialize z lz p bytes hne hv h
+
+private theorem patch_bytes_ok (z : Zlib) (lz : z.Lawful) (buf : Option Nat) (old new : Bytes) (p : Patch)
+    (bytes : Bytes) (hv : p.ctl ≠ [] ∧ ∀ c ∈ p.ctl, ValidCtl c)
+    (hc : ∀ b, memApply old p.ctl p.diff p.extra p.outSize = .ok new ∧
+               streamApply b old p.ctl p.diff p.extra p.outSize = .ok new)
+    (h : serialize z p = .ok bytes) : applyPatchBytes z buf old bytes = .ok new := by
+  rw [apply_serialize z lz buf old p bytes hv.1 hv.2 h]
+  cases buf with
+  | none => simp only [(hc 0).1, liftE]
+  | some b => simp only [(hc b).2, liftE]
+
+/-- WHOLE-PATCH round trip, simple builder: for every lawful zlib, old, new, patcher and buffer
+size: `apply_patch_bytes(old, build_simple_patch_bytes(new)) = new`. -/
+theorem simple_patch_bytes_roundtrip (z : Zlib) (lz : z.Lawful) (buf : Option Nat) (old new bytes : Bytes)
+    (h : buildBytes z (simple new) = .ok bytes) : applyPatchBytes z buf old bytes = .ok new := by
+  unfold buildBytes at h
+  split at h
+  · cases h
+  · rename_i p hp
+    exact patch_bytes_ok z lz buf old new p bytes (simple_valid new p hp) (fun b => simple_correct old new b p hp) h
+
+/-- WHOLE-PATCH round trip, (repaired) chunked builder, every `max_diff_block_size`. -/
+theorem chunked_patch_bytes_roundtrip (z : Zlib) (lz : z.Lawful) (buf : Option Nat) (maxBlk : Nat)
+    (old new bytes : Bytes) (h : buildBytes z (chunked maxBlk old new) = .ok bytes) :
+    applyPatchBytes z buf old bytes = .ok new := by
+  unfold buildBytes at h
+  split at h
+  · cases h
+  · rename_i p hp
+    exact patch_bytes_ok z lz buf old new p bytes (chunked_valid maxBlk old new p hp)
+      (fun b => chunked_correct maxBlk old new b p hp) h
+
+/-- WHOLE-PATCH round trip, `build()` with any in-bounds match finder. -/
+theorem suffix_patch_bytes_roundtrip (z : Zlib) (lz : z.Lawful) (buf : Option Nat) (cx : Cx) (wf : WfCx cx)
+    (law : SearchLaw cx) (hold : cx.old.length < 2 ^ 63) (bytes : Bytes)
+    (h : buildBytes z (suffixWith cx) = .ok bytes) : applyPatchBytes z buf cx.old bytes = .ok cx.new := by
+  unfold buildBytes at h
+  split at h
+  · cases h
+  · rename_i p hp
+    exact patch_bytes_ok z lz buf cx.old cx.new p bytes (suffix_valid cx wf law hold p hp)
+      (fun b => suffix_correct cx wf law b p hp) h
+
+/-- WHOLE-PATCH round trip, `build()` as written (real `search` over the suffix array, or any array
+of positions of `old`); `|old| < 2^63` holds of any Rust `Vec`. -/
+theorem suffix_real_patch_bytes_roundtrip (z : Zlib) (lz : z.Lawful) (buf : Option Nat) (sa : Array Nat)
+    (old new bytes : Bytes) (hsa : ∀ x ∈ sa, x ≤ old.length) (hold : old.length < 2 ^ 63)
+    (h : buildBytes z (suffix sa old new) = .ok bytes) : applyPatchBytes z buf old bytes = .ok new := by
+  have wf : WfCx (mkCx old new (searchSA sa)) := by
+    unfold WfCx mkCx
+    simp only [List.size_toArray]
+    exact ⟨trivial, trivial, by unfold usizeMax; omega⟩
+  exact suffix_patch_bytes_roundtrip z lz buf (mkCx old new (searchSA sa)) wf (search_in_bounds sa old new hsa)
+    hold bytes h
+
+/-- the hypotheses of the whole-patch theorems are satisfiable by non-trivial instances: a lawful
+zlib that changes its input, and all three builders returning patch bytes for a pair with a shared
+middle part (kernel evaluation; the last line also re-applies the chunked patch: TEST of one input). -/
+example : storeZ.Lawful ∧ storeZ.compress [1] ≠ [1] ∧
+    (buildBytes storeZ (simple [1, 2, 3])).toOption.isSome = true ∧
+    (buildBytes storeZ (chunked 64 [1, 2, 3, 4, 5, 6, 7, 8, 9] [0, 3, 4, 5, 6, 7, 8, 9, 9])).toOption.isSome = true ∧
+    (buildBytes storeZ (suffix #[0, 1, 2, 3, 4, 5, 6, 7, 8] [1, 2, 3, 4, 5, 6, 7, 8, 9] [0, 3, 4, 5, 6, 7, 8, 9, 9])).toOption.isSome = true ∧
+    ((buildBytes storeZ (chunked 64 [1, 2, 3, 4, 5, 6, 7, 8, 9] [1, 2, 3, 4, 5, 0, 7, 8, 9])).toOption.bind fun b =>
+      (applyPatchBytes storeZ (some 1024) [1, 2, 3, 4, 5, 6, 7, 8, 9] b).toOption) = some [1, 2, 3, 4, 5, 0, 7, 8, 9] := by
+  refine ⟨storeZ_lawful, by decide, ?_, ?_, ?_, ?_⟩ <;> decide +kernel
+
+/-- length clause on the WHOLE patch bytes: for ANY zlib (no law needed), any bytes, either entry
+point: an `Ok` result has exactly the number of bytes the 32-byte header states. -/
+theorem apply_patch_bytes_length_or_error (z : Zlib) (buf : Option Nat) (old p out : Bytes)
+    (h : applyPatchBytes z buf old p = .ok out) :
+    ∃ hd : Header, readHeader p = .ok hd ∧ (out.length : Int) = hd.out := by
+  cases buf with
+  | none =>
+    simp only [applyPatchBytes, applyPatchMemory] at h
+    split at h
+    · cases h
+    · rename_i d hd
+      obtain ⟨hdr, h1, -, h3⟩ := decode_header z p d hd
+      refine ⟨hdr, h1, ?_⟩
+      have := finish_length _ _ _ (liftE_ok _ _ h)
+      rw [this]; exact h3
+  | some b =>
+    simp only [applyPatchBytes, applyPatchStream] at h
+    split at h
+    · cases h
+    · rename_i hp hpp
+      simp only [applyPatchFromData] at h
+      split at h
+      · cases h
+      · rename_i d hd
+        obtain ⟨hdr, h1, hv, -⟩ := decode_header z p d hd
+        refine ⟨hdr, h1, ?_⟩
+        have hl := finish_length _ _ _ (liftE_ok _ _ h)
+        have : hp = hdr := by
+          unfold parseFromPatch at hpp
+          split at hpp
+          · cases hpp
+          · rw [h1] at hpp
+            simp only [hv, if_true, Except.ok.injEq] at hpp
+            exact hpp.symm
+        subst this
+        have := valid_bounds hp hv
+        omega
+
+/-- on the whole patch bytes the two entry points agree exactly whenever the patch has its 32 header
+bytes (shorter input: `apply_patch_memory` fails in binrw, `parse_from_patch` with InsufficientData —
+both fail). For ANY zlib, any bytes, any buffer size. -/
+theorem patch_bytes_patchers_agree (z : Zlib) (buf : Nat) (old p : Bytes) :
+    (headerLen ≤ p.length → applyPatchStream z buf old p = applyPatchMemory z old p) ∧
+    (p.length < headerLen → (∃ e, applyPatchStream z buf old p = .error e) ∧ ∃ e, applyPatchMemory z old p = .error e) := by
+  constructor
+  · intro hl
+    unfold applyPatchStream parseFromPatch applyPatchFromData applyPatchMemory
+    rw [if_neg (by omega)]
+    cases hr : readHeader p with
+    | error e =>
+      simp only [decodePatch, splitPatch, hr]
+    | ok hd =>
+      simp only
+      by_cases hv : hd.valid = true
+      · simp only [hv, if_true]
+        cases hdc : decodePatch z p with
+        | error e => rfl
+        | ok d =>
+          simp only
+          obtain ⟨hdr, h1, -, h3⟩ := decode_header z p d hdc
+          rw [hr] at h1
+          simp only [Except.ok.injEq] at h1
+          subst h1
+          have : hd.out.toNat = d.out := by omega
+          rw [this, patchers_agree]
+      · simp only [hv, Bool.false_eq_true, if_false, decodePatch, splitPatch, hr] at *
+        simp only [Bool.not_false, if_true]
+  · intro hl
+    refine ⟨⟨.need32, by unfold applyPatchStream parseFromPatch; rw [if_pos hl]⟩, ?_⟩
+    have hr : ∃ e, readHeader p = .error e := by
+      unfold readHeader
+      by_cases h8 : p.length < fieldLen
+      · exact ⟨.hdrShort, by rw [if_pos h8]⟩
+      · by_cases hm : p.take fieldLen ≠ magic
+        · exact ⟨.sig, by rw [if_neg h8, if_pos hm]⟩
+        · exact ⟨.hdrShort, by rw [if_neg h8, if_neg hm, if_pos hl]⟩
+    obtain ⟨e, he⟩ := hr
+    exact ⟨e, by simp only [applyPatchMemory, decodePatch, splitPatch, he]⟩
+
+/-- the whole-patch functions ARE the block-level `applyBytes` of the earlier theorems on the three
+inflated slices: when the container splits and the three slices inflate, `apply_patch_memory` /
+streaming = `applyBytes` on the inflated control bytes, diff, extra and the header's size. -/
+theorem apply_patch_bytes_eq_applyBytes (z : Zlib) (buf : Option Nat) (old p : Bytes) (hd : Header)
+    (cz dz ez craw diff extra : Bytes) (hl : headerLen ≤ p.length) (hs : splitPatch p = .ok (hd, cz, dz, ez))
+    (h1 : z.decompress cz = some craw) (h2 : z.decompress dz = some diff) (h3 : z.decompress ez = some extra) :
+    applyPatchBytes z buf old p = liftE (applyBytes buf old craw diff extra hd.out.toNat) := by
+  have hv : hd.valid = true ∧ readHeader p = .ok hd := by
+    unfold splitPatch at hs
+    split at hs
+    · cases hs
+    · rename_i h' hr
+      split at hs
+      · cases hs
+      · rename_i hv
+        split at hs
+        · cases hs
+        · simp only [Except.ok.injEq, Prod.mk.injEq] at hs
+          simp only [Bool.not_eq_true, Bool.not_eq_false'] at hv
+          rw [← hs.1]; exact ⟨hv, hr⟩
+  have hb := valid_bounds hd hv.1
+  have hsz : ¬ hd.out.toNat > maxSize := by omega
+  have key : applyPatchMemory z old p = liftE (applyBytes none old craw diff extra hd.out.toNat) := by
+    unfold applyPatchMemory decodePatch applyBytes
+    simp only [hs, h1, h2, h3, hsz, if_false]
+    cases parseCtl craw <;> rfl
+  cases buf with
+  | none => exact key
+  | some b =>
+    simp only [applyPatchBytes]
+    rw [(patch_bytes_patchers_agree z b old p).1 hl, key]
+    unfold applyBytes
+    simp only [hsz, if_false]
+    cases parseCtl craw with
+    | error e => rfl
+    | ok ctl => simp only [patchers_agree]
+
+/-! ### control-entry codec at the i64 limits -/
+
+/-- the compiled `offtout` (release arithmetic) followed by `offtin` is the identity on every `i64`
+except `i64::MIN`; the encoder is the sign-magnitude `offtout` of `codec_roundtrip` there. -/
+theorem offtout_i64_roundtrip (v : Int) (h1 : -(2 ^ 63) < v) (h2 : v < 2 ^ 63) :
+    offtin (offtoutI64 v) = v ∧ offtoutI64 v = offtout v :=
+  ⟨offtin_offtoutI64 v h1 h2, offtoutI64_eq v (by omega)⟩
+
+example : offtin (offtoutI64 (-(2 ^ 63) + 1)) = -(2 ^ 63) + 1 ∧ offtin (offtoutI64 (2 ^ 63 - 1)) = 2 ^ 63 - 1 :=
+  ⟨(offtout_i64_roundtrip _ (by decide) (by decide)).1, (offtout_i64_roundtrip _ (by decide) (by decide)).1⟩
+
+/-- `i64::MIN` is the one value the codec cannot carry: in release `-i64::MIN` wraps, the bytes
+written are those of negative zero, and they read back as 0 (a debug build panics in `offtout`).
+No builder emits it (`suffix_valid`: every seek is below 2^63 in magnitude). -/
+theorem offtout_i64_min_witness :
+    offtoutI64 (-(2 ^ 63)) = [0, 0, 0, 0, 0, 0, 0, 0x80] ∧ offtin (offtoutI64 (-(2 ^ 63))) = 0 := by
+  constructor <;> decide
+
+/-- negative zero (`00 … 00 80`) is accepted by `offtin` and reads as 0. -/
+theorem offtin_negative_zero : offtin [0, 0, 0, 0, 0, 0, 0, 0x80] = 0 := offtin_neg_zero
+
+/-- `offtin` never yields `i64::MIN` (any input): `-entry.seek_offset` in both patchers cannot overflow. -/
+theorem offtin_never_min (b : Bytes) : (offtin b).natAbs < 2 ^ 63 := offtin_range b
+
+/-- the encoding is canonical: every 8-byte record except negative zero is exactly what `offtout`
+writes for the value `offtin` reads from it. -/
+theorem codec_canonical (b : Bytes) (hl : b.length = 8) (hnz : b ≠ [0, 0, 0, 0, 0, 0, 0, 0x80]) :
+    offtout (offtin b) = b := offtout_offtin b hl hnz
+
+example : ([0xff, 0xff, 0xff, 0xff, 0xff, 0xff, 0xff, 0xff] : Bytes).length = 8 ∧
+    offtin [0xff, 0xff, 0xff, 0xff, 0xff, 0xff, 0xff, 0xff] = -(2 ^ 63 - 1) := by
+  constructor <;> decide
+
+/-! ### the streaming patcher over a `Read + Seek` source that returns short reads -/
+
+/-- `Read::read_exact` over ANY source that makes progress (1 … `sched i` bytes on its i-th call):
+the requested window comes back exactly when it lies inside the data, `UnexpectedEof` otherwise. -/
+theorem read_exact_short_reads (s : Source) (pos calls n : Nat) :
+    (pos + n ≤ s.data.length → ∃ c, readExact s n pos calls n = some ((s.data.drop pos).take n, c)) ∧
+    (0 < n → pos + n > s.data.length → readExact s n pos calls n = none) :=
+  ⟨fun h => readExact_ok s n pos calls n (Nat.le_refl _) h, fun h0 h => readExact_eof s n pos calls n h0 h⟩
+
+/-- `stream_short_reads_agree`: the streaming patcher reading the old file through any seekable
+short-reading source returns exactly what the memory patcher returns on the old bytes — same output,
+same error — for every schedule of `read` return sizes, every patch (valid or not), every buffer size. -/
+theorem stream_short_reads_agree (s : Source) (hs : s.seekable = true) (buf : Nat) (ctl : List Ctl)
+    (diff extra : Bytes) (outSize : Nat) :
+    srcApply s buf ctl diff extra outSize = liftE (memApply s.data ctl diff extra outSize) := by
+  rw [srcApply_eq s hs, patchers_agree]
+
+example : (⟨[1, 2, 3, 4, 5, 6, 7], fun i => i % 3, true⟩ : Source).seekable = true ∧
+    (srcApply ⟨[1, 2, 3, 4, 5, 6, 7], fun i => i % 3, true⟩ 1 [⟨5, 1, -2⟩, ⟨3, 0, 0⟩] [1, 1, 1, 1, 1, 0, 0, 0] [9] 9).toOption =
+      some [2, 3, 4, 5, 6, 9, 4, 5, 6] := ⟨rfl, by decide +kernel⟩
+
+/-- the same from the header size and raw control bytes (`apply_patch_from_data` over a source). -/
+theorem short_reads_bytes_agree (s : Source) (hs : s.seekable = true) (buf : Nat) (ctlBytes diff extra : Bytes)
+    (outSize : Nat) :
+    applyBytesSrc s buf ctlBytes diff extra outSize = liftE (applyBytes (some buf) s.data ctlBytes diff extra outSize) ∧
+    applyBytesSrc s buf ctlBytes diff extra outSize = liftE (applyBytes none s.data ctlBytes diff extra outSize) := by
+  have e : applyBytesSrc s buf ctlBytes diff extra outSize = liftE (applyBytes (some buf) s.data ctlBytes diff extra outSize) := by
+    unfold applyBytesSrc applyBytes
+    split
+    · rfl
+    · cases parseCtl ctlBytes with
+      | error x => rfl
+      | ok ctl => simp only [srcApply_eq s hs]
+  refine ⟨e, ?_⟩
+  rw [e]
+  unfold applyBytes
+  split
+  · rfl
+  · cases parseCtl ctlBytes with
+    | error x => rfl
+    | ok ctl => simp only [patchers_agree]
+
+/-- a source that cannot seek never yields output: `get_old_file_size` fails first. -/
+theorem stream_unseekable_fails (s : Source) (hs : s.seekable = false) (buf : Nat) (ctl : List Ctl)
+    (diff extra : Bytes) (outSize : Nat) : srcApply s buf ctl diff extra outSize = .error .seek := by
+  unfold srcApply; simp [hs]
+
+example : (⟨[1, 2], fun _ => 1, false⟩ : Source).seekable = false := rfl
 
 end Cascette.Props.C16
